@@ -77,7 +77,7 @@ def node_norm(nd):
         return {"t": "d"}
     if t == "l":
         return {"t": "l", "to": [str(x) for x in nd["to"]]}
-    if t in ("g", "gd"):
+    if t in ("g", "gd", "gl"):
         return {"t": t}
     return {"t": "f", "c": str(nd["c"]), "x": bool(nd["x"])}
 
@@ -314,8 +314,8 @@ def _exec_step(job, case, st, done_steps, res, head_tree):
     for verb, rel, nt in _diff_protected(before, after):
         zone, mech = _classify(case, rel, links)
         viol.append({"sig": f"{SITE[op]}|Confined|{verb} {zone} {NT.get(nt, nt)} via {mech}", "step": i,
-                     "what": f"{ENTRY[op]} {verb} {rel.split('/top/', 1)[-1]} ({zone} the work tree) after: {seqtxt}"
-                             f" -> {outcome} {exc[:120]}"})
+                     "what": f"{ENTRY[op]} {verb} {rel.split('/top/', 1)[-1]} "
+                             f"({'inside .git' if zone == '.git' else 'outside the work tree'}) in: {seqtxt} -> {outcome} {exc[:120]}"})
     # ---- property clause UnsafeRefused, on the real directory
     for p in fs:
         if p[:2] == ("p", "repo") and len(p) > 2 and p[2] != ".git":
@@ -381,6 +381,15 @@ def _exec_step(job, case, st, done_steps, res, head_tree):
 
 
 def run_job(job):
+    try:
+        return _run_job(job)
+    except Exception as e:      # noqa: BLE001 - reported with the job, the parent turns it into a machinery failure
+        import traceback
+        return {"id": job["id"], "crash": f"{type(e).__name__}: {e}\n{traceback.format_exc()[-1500:]}",
+                "history": seq_show(job["prefix"] + job["finals"][:1])}
+
+
+def _run_job(job):
     """Execute the behaviours of one job on the real code.  Returns a plain dict (picklable)."""
     from . import c17_real
     prot = job["prot"]
@@ -428,6 +437,7 @@ def _D(ch):
     return {"t": "d", "c": "", "m": "", "to": [], "ch": ch}
 
 
+_G = {"t": "g", "c": "", "m": "", "to": [], "ch": []}
 FILE_KINDS = [_F("A", "644"), _F("B", "odd"), _F("A", "755"), _F("B", "oddnx"), _F("B", "644")]
 LINK_TARGETS = [["..", "od"], ["..", "of"], ["", "p", "od"], ["", "p", "of"], [".git"], [".git", "config"], [".git", "hooks"],
                 ["a"], ["d"], ["e"], ["x"], ["d", "x"], ["..", "ol"], ["."], [".."], ["..", ".."], ["..", "od", "e"],
@@ -443,20 +453,23 @@ def gen_tree(rng, max_entries=3):
         ents = []
         for _ in range(rng.choice([0, 1, 1, 2, 2, 2, 3][:max(1, 2 * max_entries + 1)]) if max_entries >= 3 else rng.randrange(0, max_entries + 1)):
             r = rng.random()
-            if r < 0.22:
+            if r < 0.12:
                 nm = rng.choice(ODD_NAMES)
                 k = rng.choice(FILE_KINDS[:2] + [_L(rng.choice(LINK_TARGETS[:6]))])
             else:
                 nm = rng.choice(ROOT_NAMES)
                 q = rng.random()
-                if q < 0.3:
+                if q < 0.06:
+                    k = _G
+                elif q < 0.3:
                     k = rng.choice(FILE_KINDS)
                 elif q < 0.65:
                     k = _L(rng.choice(LINK_TARGETS))
                 else:
                     ch = []
                     for cn in rng.sample(CHILD_NAMES, rng.choice([1, 1, 2])):
-                        ch.append({"n": cn, "k": rng.choice(FILE_KINDS) if rng.random() < 0.7 else _L(rng.choice(CHILD_LINKS))})
+                        z = rng.random()
+                        ch.append({"n": cn, "k": rng.choice(FILE_KINDS) if z < 0.65 else _G if z < 0.72 else _L(rng.choice(CHILD_LINKS))})
                     k = _D(sorted(ch, key=lambda e: e["n"]))
             ents.append({"n": nm, "k": k})
         names = [tuple(e["n"]) for e in ents]
@@ -489,7 +502,7 @@ def node4(nd):
         return {"t": "d", "c": "", "x": False, "to": []}
     if t == "l":
         return {"t": "l", "c": "", "x": False, "to": list(nd["to"])}
-    if t in ("g", "gd"):
+    if t in ("g", "gd", "gl"):
         return {"t": t, "c": "", "x": False, "to": []}
     return {"t": "f", "c": nd["c"] + ("!" + nd["perm"] if "perm" in nd else ""), "x": bool(nd["x"]), "to": []}
 
